@@ -183,6 +183,32 @@ func nest(open, leaf, closing string, n int) string {
 	return strings.Repeat(open, n) + leaf + strings.Repeat(closing, n)
 }
 
+// growthForms: every program of the growth family, for one huge operand.
+func growthForms(big string) []string {
+	return []string{
+		"\"x\" * " + big,
+		"\"0123456789\" * " + big,
+		"[1] * " + big,
+		"[1, 2, 3, 4] * " + big,
+		"0 : " + big,
+		"(-" + big + ") : " + big,
+		"s = \"x\"; for 64 { s = s + s }; len(s)",
+		"s = \"0123456789\"; for 70 { s = s * 10 }; len(s)",
+		"a = [1]; for 64 { a = a + a }; len(a)",
+		"a = [1, 2]; for 64 { a = a * 4 }; len(a)",
+		"m = {1: 1}; for i = 40 { n = {}; for kv = m { n[kv.key * 2] = 1; n[kv.key * 2 + 1] = 1 }; m = m + n }; len(m)",
+		"a = 0 : 1000000; for 200 { a = a + a }; len(a)",
+		"join([\"x\" * 1000000] * 100000, \"\")",
+		"join([\"\"] * 3000, \"-\" * 1000000)",
+		"join([\"ab\"] * 100000, \"0123456789\" * 10000)",
+		"len(join(0:200000, \"x\" * 100000))",
+		"runes(\"x\" * 100000000)",
+		"split(\"x\" * 100000000, \"\")",
+		"len(\"ab\" * " + big + ")",
+		"x = [[1] * 1000000] * 1000000",
+	}
+}
+
 // nestingForms: every syntactic way of nesting (n levels, nb for blocks) or chaining that the family uses.
 func nestingForms(n, nb int) []string {
 	return []string{
@@ -260,25 +286,7 @@ func genCase(t *rapid.T) Case {
 		}
 	case 2:
 		c.Family = "growth"
-		c.Program = rapid.SampledFrom([]string{
-			"\"x\" * " + big,
-			"\"0123456789\" * " + big,
-			"[1] * " + big,
-			"[1, 2, 3, 4] * " + big,
-			"0 : " + big,
-			"(-" + big + ") : " + big,
-			"s = \"x\"; for 64 { s = s + s }; len(s)",
-			"s = \"0123456789\"; for 70 { s = s * 10 }; len(s)",
-			"a = [1]; for 64 { a = a + a }; len(a)",
-			"a = [1, 2]; for 64 { a = a * 4 }; len(a)",
-			"m = {1: 1}; for i = 40 { n = {}; for kv = m { n[kv.key * 2] = 1; n[kv.key * 2 + 1] = 1 }; m = m + n }; len(m)",
-			"a = 0 : 1000000; for 200 { a = a + a }; len(a)",
-			"join([\"x\" * 1000000] * 100000, \"\")",
-			"runes(\"x\" * 100000000)",
-			"split(\"x\" * 100000000, \"\")",
-			"len(\"ab\" * " + big + ")",
-			"x = [[1] * 1000000] * 1000000",
-		}).Draw(t, "growth")
+		c.Program = rapid.SampledFrom(growthForms(big)).Draw(t, "growth")
 		if rapid.IntRange(0, 3).Draw(t, "wrap") == 0 {
 			// element count x repeat count wraps around 2^64 to a small positive number
 			l := rapid.SampledFrom([]int{3, 4, 5, 7, 8, 12, 16}).Draw(t, "wraplen")
@@ -317,6 +325,26 @@ func genCase(t *rapid.T) Case {
 		}).Draw(t, "mixed")
 	}
 	return c
+}
+
+// every growth program with two huge operands: the deterministic part
+func TestGrowthForms(t *testing.T) {
+	idx := 0
+	for _, big := range []string{"10000000000", "(1<<62)"} {
+		for fi, prog := range growthForms(big) {
+			idx++
+			if !pbt.Mine(idx) || (big != "10000000000" && !strings.Contains(prog, big)) {
+				continue
+			}
+			_ = fi
+			c := Case{Family: "growth", Program: prog, MaxDepth: 500, Deadline: 300, MemMiB: 128}
+			o, err := check(c)
+			if err != nil {
+				pbt.Fail(t, "case", c, "%v\nprogram (first 200 bytes): %.200s", err, c.Program)
+			}
+			pbt.CaseExact(o.guard != "", "growth-forms:guard:"+o.guard)
+		}
+	}
 }
 
 // every nesting / chaining form at depths around and far beyond the parser's limit: the deterministic part
